@@ -113,8 +113,10 @@ def eject_z(
             return op
 
         # Move Z gates into tracked qubit phases.
-        if isinstance(gate, ops.ZPowGate) and (
-            eject_parameterized or not protocols.is_parameterized(gate)
+        if (
+            isinstance(gate, ops.ZPowGate)
+            and gate.dimension == 2  # the qudit clock gate has other periods
+            and (eject_parameterized or not protocols.is_parameterized(gate))
         ):
             qubit_phase[op.qubits[0]] += gate.exponent / 2
             return []
